@@ -367,6 +367,7 @@ impl Sut {
     /// Executes one operation on the real cache. `vid` is the id given to the value
     /// if the operation is an insert.
     pub fn apply(&mut self, cfg: &Cfg, op: Op, vid: u32) -> Obs {
+        crate::common::solo_reset();
         let obs = match self {
             Sut::U { c, clock } => match op {
                 Op::Ins(k, w) => {
@@ -562,6 +563,9 @@ pub fn alphabet(cfg: &Cfg) -> Vec<Op> {
             }
             if cfg.a > 0 && cfg.has_expiry() {
                 a.push(Op::Adv(1));
+            }
+            if s && !cfg.autosync {
+                a.push(Op::Sync);
             }
         }
         // pointer-sharing situations: re-insert after invalidate, stale rejection,
